@@ -5,8 +5,10 @@ pub mod model;
 pub mod c14;
 pub mod c02;
 pub mod c07;
+pub mod c08;
 pub mod c10;
 pub mod c12;
+pub mod c15;
 pub mod image;
 pub mod c01;
 pub mod hscript;
